@@ -3,6 +3,7 @@
   * American pitch notation (output and input), semitone distance, ordering of pitches      -> Pitch.tla, Trace_Pitch
   * the page index of bounding boxes                                                          -> Queries!PageIndex, Trace_Session (end.page_index)
   * the graph export (ranks, edges, node labels up to renaming)                                -> Queries!GraphRanks/GraphEdges/GraphLabels, Trace_Session (graph.*)
+  * value objects: StoreCache, BoundingBox, DurationClassical, PitchRest under call histories -> Values.tla, MC_Values, Trace_Values
 A deviation here is reported as EXTRA-DEVIATION (never as a VIOLATION of a property) and the command always exits 0 unless the
 machinery itself fails.  Known deviations of the unchanged tree are listed in KNOWN below.
 """
@@ -15,7 +16,7 @@ import time
 
 from ..common import cps, uncps, VERIF, main_wrapper, MachineryError
 from .. import tlc
-from . import pitchrec, docs, docprops as dp
+from . import pitchrec, docs, docprops as dp, values
 
 KNOWN = {'american_in_flat': "AmericanPitchImporter cannot read flats ('Bb4' -> ValueError: the name setter upper-cases before mapping b to -)",
          'american_out_two_or_more_sharps': "AmericanPitchExporter writes flats for a result with two or more sharps (C up AA3 -> 'Ebb': it compares the "
@@ -229,6 +230,10 @@ def main():
             bdev.setdefault(c, []).append(s_['text'])
     for c, xs in sorted(bdev.items()):
         print(f'EXTRA-DEVIATION: (TLC behaviour of the extended machine) clause {c} fails {len(xs)} time(s), e.g. {xs[0][:200]!r}')
+    # value objects: StoreCache, BoundingBox, DurationClassical, PitchRest (Values.tla: every short history + simulated long ones)
+    vsumm, vdev, vtl = values.run(thorough=os.environ.get('VERIF_TIER') == 'thorough')
+    for d_ in vdev[:10]:
+        print('EXTRA-DEVIATION: (value objects)', d_[:400])
     for t, c in gdev[:5]:
         print('EXTRA-DEVIATION:', c, 'of', repr(t[:200]))
     for r in dev[:10]:
@@ -242,7 +247,8 @@ def main():
            'extended_machine_with_exchange': sum(1 for s_ in sx for e_ in s_['log'] if e_['ev'] == 'unsupported'), 'extended_machine_sections>1': sum(1 for s_ in sx if s_['text'].count('\n**') + s_['text'].startswith('**') > 1),
            'extended_machine_mc_states': mcx.distinct, 'extended_machine_behaviours_replayed': len(xb), 'extended_machine_behaviour_deviations': {c: len(x) for c, x in bdev.items()},
            'extended_machine_blocked': nblocked, 'extended_machine_deviations': {c: len(x) for c, x in xdev.items()},
-           'states': sum(t.distinct for t in tl + tl2 + tl3 + tl4) + mcx.distinct, 'wall_s': round(time.time() - t0, 1)}
+           **vsumm,
+           'states': sum(t.distinct for t in tl + tl2 + tl3 + tl4 + vtl) + mcx.distinct, 'wall_s': round(time.time() - t0, 1)}
     if os.environ.get('VERIF_REPO', '/repo') == '/repo':          # a development run against a scratch repository writes nothing
         os.makedirs(os.path.join(VERIF, 'evidence'), exist_ok=True)
         with open(os.path.join(VERIF, 'evidence', 'extras.json'), 'w') as f:
